@@ -105,6 +105,59 @@ def presence_tested(sdict, syn, _cache={}):
     return False
 
 
+def nonempty_tested(sdict, syn, _cache={}):
+    """`R.last() / first() / pop() / next() .. .unwrap()` only reached when R was tested non-empty (`!R.is_empty()`, `R.len() > 0`, `>= 1`, `== k` with
+    k >= 1, a match arm `k =>` on `R.len()`), in any of the if / else / early-return spellings."""
+    import guards
+    if sdict["cls"] not in ("Option::unwrap", "Option::expect") or sdict["step"] not in (".last()", ".first()", ".pop()", ".last_mut()", ".first_mut()", ".next()", ".next_back()", ".peek()", ".split_last()", ".split_first()"):
+        return False
+    sf = syn.fn_at(sdict["file"], sdict["l"])
+    if not sf or "body" not in sf:
+        return False
+    par = _cache.get(id(sf))
+    if par is None:
+        par = _cache[id(sf)] = guards.parents(sf["body"])
+    for n in walk(sf["body"]):
+        if n.get("k") == "mcall" and n["m"] in ("unwrap", "expect") and sdict["l"] in (n["l"], n.get("ml", n["l"])) and n["r"].get("k") == "mcall" and "." + n["r"]["m"] + "()" == sdict["step"]:
+            base = n["r"]["r"]
+            while base.get("k") == "mcall" and base["m"] in ("iter", "into_iter", "iter_mut", "chars", "as_slice", "as_mut", "as_ref", "clone", "drain") and not base["a"]:
+                base = base["r"]
+            R = show(base, maxdepth=10).lstrip("&*")
+            if not R or "(" in R.replace("()", ""):
+                continue
+
+            def atom(c, R=R):
+                t = show(c, maxdepth=8).replace(" ", "").replace("(", "").replace(")", "")
+                r_ = R.replace("(", "").replace(")", "")
+                if t == f"!{r_}.is_empty":
+                    return 1
+                if t == f"{r_}.is_empty":
+                    return -1
+                m = re.fullmatch(re.escape(r_) + r"\.len(>|>=|==|!=|<)(\d+)", t)
+                if m:
+                    op, k = m.group(1), int(m.group(2))
+                    if (op == ">" and k >= 0) or (op == ">=" and k >= 1) or (op == "==" and k >= 1) or (op == "!=" and k == 0):
+                        return 1
+                    if (op == "==" and k == 0) or (op == "<" and k <= 1):
+                        return -1
+                return 0
+            if guards.side_of(par, n, atom) is True:
+                return True
+            if guards.len_is_one_guard(n, par, R) is True:
+                return True
+            # a match arm `k =>` (k >= 1) on `R.len()`
+            cur = n
+            while id(cur) in par:
+                p_ = par[id(cur)]
+                if p_.get("k") == "match" and show(p_["e"]).replace(" ", "") == f"{R}.len()":
+                    for arm in p_["arms"]:
+                        if arm["body"] is cur or guards._contains(arm["body"], cur):
+                            if arm["pat"].get("k") == "lit" and str(arm["pat"].get("v")).isdigit() and int(arm["pat"]["v"]) >= 1:
+                                return True
+                cur = p_
+    return False
+
+
 def guarded_counts(sites, syn):
     """{class key: {"guarded": n, "sites": m}} for the site kinds whose safety is a local, recognisable guard:
     literal indexing under a length test, and `x.as_k().unwrap()` under `x.is_k()` / a match arm of variant K."""
@@ -115,6 +168,12 @@ def guarded_counts(sites, syn):
         is_idx = sdict["cls"] == "Vec[]" and sdict["step"].endswith("[lit]")
         is_acc = sdict["cls"] in ("Option::unwrap", "Option::expect", "Result::unwrap", "Result::expect") and re.match(r"^\.((as|into|try_into)_\w+|try_into)\(\)$", sdict["step"] or "")
         if not (is_idx or is_acc):
+            # presence / non-emptiness tests that dominate an unwrap
+            if sdict["cls"] in ("Option::unwrap", "Option::expect", "Result::unwrap", "Result::expect"):
+                d = out.setdefault(sdict["key"], {"guarded": 0, "sites": 0})
+                d["sites"] += 1
+                if presence_tested(sdict, syn) or nonempty_tested(sdict, syn):
+                    d["guarded"] += 1
             continue
         sf = syn.fn_at(sdict["file"], sdict["l"])
         if not sf or "body" not in sf:
